@@ -203,6 +203,27 @@ func newWorld(c *core.Case, o sess.Opts) *world {
 	return w
 }
 
+// receiptMessage lays a message with a receipts payload out in one of the
+// ways senders do: compact, indented (character data between the children of
+// the message), with other payloads and text before and after the payload.
+func (w *world) receiptMessage(rn int, msgID, payload string) string {
+	open := fmt.Sprintf("<message type='chat' id='%s' rcpt='1' rn='%d'>", msgID, rn)
+	if rn%5 != 0 {
+		w.c.Count("receipt_messages_with_text_or_siblings_around_the_payload", 1)
+	}
+	switch rn % 5 {
+	case 1:
+		return open + "\n  " + payload + "\n</message>"
+	case 2:
+		return open + "<body>thanks</body>\n\t" + payload + "</message>"
+	case 3:
+		return open + "text first " + payload + "<x xmlns='" + nsV + "'><received/></x> and after</message>"
+	case 4:
+		return open + "<thread>t</thread>" + payload + "\r\n<body/></message>"
+	}
+	return open + payload + "</message>"
+}
+
 // answeredInHandler reports whether some reply delivered for rq has already
 // been seen by a handler.
 func (w *world) answeredInHandler(rq string) bool {
@@ -307,7 +328,7 @@ func (w *world) onPeer(n *xmltree.Node) {
 			}
 			if rs.What == "receipt" {
 				w.log.add(ev{Ev: "deliver", RQ: rq, RN: rn, Kind: "message", Typ: "chat", ID: id, Note: "receipt/" + rs.When})
-				w.p.Peer.Write([]byte(fmt.Sprintf("<message type='chat' id='rc%d' rcpt='1' rn='%d'><received xmlns='urn:xmpp:receipts' id='%s'/></message>", rn, rn, esc(id))))
+				w.p.Peer.Write([]byte(w.receiptMessage(rn, fmt.Sprintf("rc%d", rn), fmt.Sprintf("<received xmlns='urn:xmpp:receipts' id='%s'/>", esc(id)))))
 				pl.sentOnce.Do(func() { close(pl.firstSent) })
 				return
 			}
